@@ -37,6 +37,8 @@ var strClasses = map[string][]string{
 	"str.unicode":  {"é", "日本語", "\U0001F600x", "áb", "naïve", "ßx", "éé", "x y"},
 	"str.uniblank": {"\u00a05\u00a0", "\u20285", "5\u0085", "\v5", "5\f", "\u30005"},
 	"str.quote":    {"it's", "say \"hi\"", "'", "\""},
+	// XPath has no escapes: a backslash is a character like any other, also before a quote or at the end of a literal
+	"str.backslash": {"\\", "a\\nb", "a\\\\b", "dom\\user", "\\t", "it's\\", "it's a\\nb", "c:\\dir\\", "\\\\", "x\\y", "tab\\there", "say \"hi\"\\"},
 }
 
 var strClassNames, numClassNames []string
